@@ -55,6 +55,9 @@ type recorder struct {
 	// silenceHold: extra sleep (microseconds) at the cr.silence hook (widens the window in which the
 	// packet goroutine can be stranded); 0 = none
 	silenceHold atomic.Int64
+	// timeoutHold: extra sleep (microseconds) at the ret.timeout hook: the caller has left its select but is still
+	// registered, which is the window in which a late answer is delivered to a channel nobody reads any more
+	timeoutHold atomic.Int64
 	overflow    atomic.Bool
 	closed      atomic.Bool
 }
@@ -137,6 +140,11 @@ func (r *recorder) hook(localAddr func(any) string) func(ev string, obj any, a, 
 		s.ok.Store(true)
 		if ev == "cr.silence" {
 			if h := r.silenceHold.Load(); h > 0 {
+				time.Sleep(time.Duration(h) * time.Microsecond)
+			}
+		}
+		if ev == "ret.timeout" {
+			if h := r.timeoutHold.Load(); h > 0 {
 				time.Sleep(time.Duration(h) * time.Microsecond)
 			}
 		}
